@@ -195,3 +195,5 @@ def correspond(seed, tier):
             if bad:
                 break
     return dict(evaluations=len(expect), disagreements=dis, worst_ratio=worst, distribution=dist, samples=[], cases={})
+
+DRIVERS = ["drvm"]
